@@ -53,10 +53,13 @@ func (c *Completer) Init() {
 }
 
 func setHook(p *slip.Package, key string) {
-	if p == &Pkg ||
-		strings.HasPrefix(key, "*print-") ||
-		key == "*bag-time-format*" ||
-		key == "*bag-time-wrap*" {
+	// The hook is called a second time with the package qualified name, the
+	// setting is saved once under its own name.
+	if !strings.Contains(key, ":") &&
+		(p == &Pkg ||
+			strings.HasPrefix(key, "*print-") ||
+			key == "*bag-time-format*" ||
+			key == "*bag-time-wrap*") {
 		modifiedVars[key] = true
 		updateConfigFile()
 	}
